@@ -182,8 +182,14 @@ pub fn enum_states(
                             let rel = if decom { region.map(|r| r.0).unwrap_or(0) } else { 0 };
                             if x == c {
                                 // pending wrap: write the last column (keeps IRM as the zoo chose it)
-                                setup.push(Op::Api(Call::CursorPosition(Some(y - rel + 1), Some(c))));
-                                setup.push(Op::Api(Call::Draw(gen::marker(c - 1, y, c).to_string())));
+                                if c >= 2 && rng.below(4) == 0 {
+                                    // ... or a double-width character ending flush with the edge
+                                    setup.push(Op::Api(Call::CursorPosition(Some(y - rel + 1), Some(c - 1))));
+                                    setup.push(Op::Api(Call::Draw("\u{65e5}".into())));
+                                } else {
+                                    setup.push(Op::Api(Call::CursorPosition(Some(y - rel + 1), Some(c))));
+                                    setup.push(Op::Api(Call::Draw(gen::marker(c - 1, y, c).to_string())));
+                                }
                             } else {
                                 setup.push(Op::Api(Call::CursorPosition(Some(y - rel + 1), Some(x + 1))));
                             }
@@ -307,10 +313,12 @@ pub static C05: StepCheck = StepCheck {
 // C04 draw
 // -------------------------------------------------------------------------------------------
 
-pub const DRAW_POOL: [char; 40] = [
+pub const DRAW_POOL: [char; 46] = [
     'a', 'Z', '~', ' ', '0', '_', 'q', '`', 'x', 'j', 'é', 'ÿ', '\u{a0}', '\u{ad}', 'ß', '¬', 'ж', 'Я', 'λ', '│', 'コ', '日',
     '本', '😀', '\u{ff21}', '\u{0308}', '\u{0301}', '\u{20dd}', '\u{200b}', '\u{feff}', '\u{200d}', '\0', '\u{7}',
     '\u{7f}', '\u{85}', '\u{1b}', '\u{9b}', '\u{18}', '\u{e000}', '\u{10ffff}',
+    // members of sequences that are narrower / wider as a string than character by character
+    '\u{fe0f}', '\u{1f3fd}', '\u{644}', '\u{627}', '\u{2764}', '\u{1f1e9}',
 ];
 
 fn draw_both(v: &mut Vec<Cand>, s: String) {
@@ -366,7 +374,7 @@ fn c04_cands(rng: &mut Rng, _pre: &Snap, _t: Tier) -> Vec<Cand> {
 
 pub static C04: StepCheck = StepCheck {
     id: "C04",
-    rule: "per-step Hoare monitor: grid, cursor and every other component after draw(text) vs the reference drawing semantics (charset translation, width 0/1/2, combining, pending wrap with DECAWM on/off, scrolling at the bottom margin, LNM, IRM splice) applied to the implementation's own pre-state. Texts: singles, ordered pairs (all 1600 pairs of a 40-character class pool from 1/8 of the states) and random strings <= 12, via Screen::draw and via a fresh parser; states from the zoo (markers, colours, margins, modes, charsets, pending wrap, wide/combining content).",
+    rule: "per-step Hoare monitor: grid, cursor and every other component after draw(text) vs the reference drawing semantics (charset translation, width 0/1/2, combining, pending wrap with DECAWM on/off, scrolling at the bottom margin, LNM, IRM splice) applied to the implementation's own pre-state. Texts: singles, ordered pairs (all 2116 pairs of a 46-character class pool from 1/8 of the states) and random strings <= 12, via Screen::draw and via a fresh parser; states from the zoo (markers, colours, margins, modes, charsets, pending wrap, wide/combining content).",
     required: &["step-judged", "pending-wrap", "IRM", "DECAWM-off", "wide-char", "degenerate-geometry"],
     owns: |c, _| if c.owner() == "C04" { Own::Full } else { Own::No },
     profile: || Profile { wide: 8, irm: 30, pending_wrap: 35, charset8: 20, ..Default::default() },
@@ -720,6 +728,22 @@ fn c12_cands(rng: &mut Rng, _pre: &Snap, _t: Tier) -> Vec<Cand> {
             }
         }
     }
+    // "RM restores the previous width": the width remembered by SM ?3 must survive explicit
+    // resizes and RM ?3 at other widths until an RM ?3 finds the screen 132 wide again
+    for _ in 0..3 {
+        let mut ops: Vec<Op> = vec![Op::Api(SetMode(vec![3], true))];
+        for _ in 0..1 + rng.below(4) {
+            ops.push(match rng.below(5) {
+                0 => Op::Api(Resize(None, Some(132))),
+                1 => Op::Api(Resize(None, Some(rng.range(1, 140)))),
+                2 => Op::Api(SetMode(vec![3], true)),
+                _ => Op::Api(ResetMode(vec![3], true)),
+            });
+        }
+        ops.push(Op::Api(Resize(None, Some(132))));
+        ops.push(if rng.bool() { Op::Api(ResetMode(vec![3], true)) } else { Op::Feed("\x1b[?3l".into()) });
+        v.push(Cand { ops });
+    }
     // the three "governing" modes, each switched and then exercised by drawing / newline
     for (m, private) in [(4u32, false), (20, false), (7, true)] {
         for set in [true, false] {
@@ -847,6 +871,34 @@ fn c13_cands(rng: &mut Rng, pre: &Snap, _t: Tier) -> Vec<Cand> {
         both(&mut v, InsertCharacters(n));
         both(&mut v, DeleteCharacters(n));
     }
+    // counts chosen relative to the CONTENT of the cursor row: the shift that puts a particular
+    // stored cell (a glyph, the lead or the placeholder of a double-width character) exactly on
+    // the last column, one beyond it, exactly on the cursor, one before it
+    {
+        let x = pre.cx.min(c.saturating_sub(1));
+        if let Some(row) = pre.grid.get(pre.cy as usize) {
+            let ks: Vec<u32> = (x + 1..c).filter(|k| row.get(*k as usize).map(|cell| cell.text != " ").unwrap_or(false)).collect();
+            let mut picks: Vec<u32> = Vec::new();
+            if let (Some(a), Some(b)) = (ks.first(), ks.last()) {
+                picks.push(*a);
+                picks.push(*b);
+                for _ in 0..3 {
+                    picks.push(*rng.pick(&ks));
+                }
+            }
+            picks.sort();
+            picks.dedup();
+            for k in picks {
+                for d in [0u32, 1] {
+                    both(&mut v, InsertCharacters(Some(c - 1 - k + d)));
+                    both(&mut v, DeleteCharacters(Some(k - x + d)));
+                    if k - x >= 1 + d {
+                        both(&mut v, DeleteCharacters(Some(k - x - d)));
+                    }
+                }
+            }
+        }
+    }
     // random edit sequences on the same row, then grow by two columns to expose hidden cells
     let alpha = edit_alphabet(c);
     for _ in 0..20 {
@@ -969,8 +1021,12 @@ pub static C13: StepCheck = StepCheck {
     cands: c13_cands,
     enumerated: c13_enum,
     geom: |rng, tier| {
-        if rng.below(100) < 70 {
+        let r = rng.below(100);
+        if r < 64 {
             (rng.range(1, 8), rng.range(1, 3))
+        } else if r < 72 {
+            // very wide, very short: row operations beyond every width a fast path might key on
+            (rng.range(100, 170), rng.range(1, 2))
         } else {
             gen::pick_geom(rng, tier)
         }
@@ -1009,6 +1065,40 @@ fn c14_cands(rng: &mut Rng, pre: &Snap, _t: Tier) -> Vec<Cand> {
     let mut v = Vec::new();
     both(&mut v, SaveCursor);
     both(&mut v, RestoreCursor);
+    // "clamped into the current screen and scrolling region": the position is saved at an
+    // extreme place (last row / bottom margin, last or pending-wrap column, with DECOM on or
+    // off), then region, origin mode, autowrap and size change under the savepoint
+    for _ in 0..8 {
+        let mut calls: Vec<Call> = Vec::new();
+        if rng.bool() && l >= 2 {
+            let t = rng.range(1, l - 1);
+            calls.push(SetMargins(Some(t), Some(rng.range(t + 1, l))));
+        }
+        if rng.bool() {
+            calls.push(SetMode(vec![6], true));
+        }
+        calls.push(CursorPosition(Some(if rng.below(3) == 0 { rng.range(1, l) } else { l }), Some(if rng.below(4) == 0 { rng.range(1, c) } else { c })));
+        if rng.below(3) != 0 {
+            calls.push(Draw("w".into()));
+        }
+        calls.push(SaveCursor);
+        for _ in 0..1 + rng.below(3) {
+            calls.push(match rng.below(7) {
+                0 => ResetMode(vec![6], true),
+                1 => SetMode(vec![6], true),
+                2 if l >= 2 => {
+                    let t = rng.range(1, l - 1);
+                    SetMargins(Some(t), Some(rng.range(t + 1, l)))
+                }
+                3 => SetMargins(None, None),
+                4 => Resize(Some(rng.range(1, l)), Some(rng.range(1, c))),
+                5 => ResetMode(vec![7], true),
+                _ => CursorPosition(Some(1), Some(1)),
+            });
+        }
+        calls.push(RestoreCursor);
+        v.push(Cand { ops: calls.into_iter().map(Op::Api).collect() });
+    }
     for _ in 0..24 {
         let k = rng.usize(5);
         let m = rng.usize(5);
